@@ -10,6 +10,7 @@ hash-to-point function, `f` the coefficients of the group's polynomial (`pubPoly
 import DosModel.Proofs.Query
 import DosModel.Props.C02
 import DosModel.Props.C03
+import DosModel.Proofs.ComposePairing
 
 set_option linter.unusedSectionVars false
 
@@ -132,15 +133,5 @@ theorem signed_validShare (cd : Codec G) (hcd : ∀ p, cd.decode (cd.encode p) =
   Props.C02.signed_share_valid cd hcd f (H c) n i hi h16
 
 theorem threshold_pos (n : Nat) : 0 < Content.threshold n := by unfold Content.threshold; omega
-
-/-- a concrete pairing for the non-vacuity examples: any field as a module over itself,
-`e(a, b) = a·b` written multiplicatively, `g₂ = 1` -/
-def mulPairing (K : Type) [Field K] : Pairing K K K (Multiplicative K) where
-  e a b := Multiplicative.ofAdd (a * b)
-  add_left a b q := by simp [add_mul]
-  add_right a p q := by simp [mul_add]
-  smul_swap c a q := by simp [mul_comm c a, mul_assoc]
-  g2 := 1
-  nondeg a h := by simpa using h
 
 end Dos.Compose
